@@ -171,6 +171,10 @@ impl Property for P {
             ]
             .boxed(),
         };
+        let text = prop_oneof![
+            80 => text,
+            1 => gen::log_count(400).prop_flat_map(|k| margin_text(k, true)),
+        ];
         (text, 0..WS_PREFIXES.len())
             .prop_map(|(text, i)| Case {
                 text,
